@@ -58,6 +58,9 @@ type LabelModel struct {
 	Versions map[int]*LabelVersion
 	// MaxEver: the largest label ever present or handed out in this volume at any version
 	MaxEver uint64
+	// Reserved: the largest id the client side has picked for a supervoxel, whether or not a voxel of it
+	// ever reached the server (a generated layout may leave a chosen label without voxels)
+	Reserved uint64
 }
 
 func NewLabelModel(g LabelGeom) *LabelModel {
@@ -78,6 +81,13 @@ func (m *LabelModel) NewChild(parent, child int) {
 func (m *LabelModel) note(l uint64) {
 	if l > m.MaxEver {
 		m.MaxEver = l
+	}
+	m.reserve(l)
+}
+
+func (m *LabelModel) reserve(l uint64) {
+	if l > m.Reserved {
+		m.Reserved = l
 	}
 }
 
